@@ -144,7 +144,9 @@ def get_constraint_pre_removed_options(choice_constraint: ChoiceConstraint, perm
         return []
 
     # For permutations, if there are more choices that the max nr of options, there is no way to make a permutation
-    if choice_constraint.type == ChoiceConstraintType.PERMUTATION:
+    # We can only apply this if all choices are permanent, otherwise fewer choices may be active together
+    if choice_constraint.type == ChoiceConstraintType.PERMUTATION \
+            and all(node in permanent_nodes for node in choice_constraint.nodes):
         n_dec = len(choice_constraint.nodes)
         n_opt_max = max([len(options) for options in choice_constraint.options])
 
@@ -247,6 +249,11 @@ def count_n_combinations_max(choice_constraint: ChoiceConstraint, is_all_permane
     if choice_constraint.type == ChoiceConstraintType.UNORDERED_NOREPL and not is_all_permanent:
         is_all_permanent = True
 
-    all_idx_comb = np.array(list(itertools.product(
-        *[range(len(opt_nodes)) for opt_nodes in choice_constraint.options])))
+    # For permutations, if it is not known which nodes actually exist at a given time, at most as many choices as there
+    # are options can be active together
+    options = choice_constraint.options
+    if choice_constraint.type == ChoiceConstraintType.PERMUTATION and not is_all_permanent:
+        options = options[:max([len(opt_nodes) for opt_nodes in options])]
+
+    all_idx_comb = np.array(list(itertools.product(*[range(len(opt_nodes)) for opt_nodes in options])))
     return len(get_valid_idx_combinations(all_idx_comb, choice_constraint.type, is_all_permanent=is_all_permanent))
